@@ -130,6 +130,7 @@ def run_threads(scn, observers=()):
     res.info["lines"] = sched.nlines
     res.info["opcount"] = world.opcount
     res.info["linecov"] = sched.linecov
+    res.info["line_record"] = getattr(sched, "record", None)
     finish(res, world)
     for ob in observers:
         if hasattr(ob, "post"):
